@@ -138,8 +138,10 @@ Definition regex_step (k : nat) (s : string) : string :=
   | _ => normalize2 s
   end.
 
-Definition step_fp (k : nat) (prefix : string) (n : nat) : N :=
-  fp_gen (fun t => h_str (regex_step k t) 11) alphaX prefix n 0.
+Definition alphaXq : list ascii := ["1"; "-"; "#"; "("; ")"; ":"; " "; "^"; "_"; "*"]%char.
+Definition step_fp_on (al : list ascii) (k : nat) (prefix : string) (n : nat) : N :=
+  fp_gen (fun t => h_str (regex_step k t) 11) al prefix n 0.
+Definition step_fp (k : nat) (prefix : string) (n : nat) : N := step_fp_on alphaX k prefix n.
 
 (* '_' directly followed by a digit: the grammar's [cell] alternative (private syntax) *)
 Fixpoint has_cell_syntax (s : string) : bool :=
